@@ -119,7 +119,9 @@ func runC04(c *Ctx) {
 		}
 		c.Check("C04.F", key, p, posOf(hits), ok, "exactly one call site of "+what+", outside any loop", fmt.Sprintf("%s: %d call site(s) of %s (must be exactly one, not in a loop): one worker can forward the request more than once", fnName, len(hits), what))
 	}
-	single("agent.processOneRequest", "worker→ReadRequest", func(i ssa.Instruction) bool { return IsCall(i, ModPath+"/agent/utils.ReadRequest") && i.Parent().Name() == "processOneRequest" }, "utils.ReadRequest")
+	single("agent.processOneRequest", "worker→ReadRequest", func(i ssa.Instruction) bool {
+		return IsCall(i, ModPath+"/agent/utils.ReadRequest") && i.Parent().Name() == "processOneRequest"
+	}, "utils.ReadRequest")
 	single("agent.processOneRequest", "callback→forwardRequest", func(i ssa.Instruction) bool { return IsCall(i, ModPath+"/agent.forwardRequest") }, "forwardRequest")
 	single("agent/utils.ReadRequest", "ReadRequest→callback", func(i ssa.Instruction) bool {
 		cc := CallOf(i)
